@@ -195,6 +195,14 @@ func TestVerifC11(t *testing.T) {
 					junk := types.ByteSequence(r.Bytes(1 + r.IntN(64)))
 					pe.Encode(&junk)
 				}
+				if i >= 1 {
+					// the encoder's previous job may also have FAILED half-way (a value its own validation rejects after the first fields
+					// were written): what it left behind must not show up in the next encoding
+					poison := &types.WorkResult{ServiceID: types.ServiceID(r.U32()), Result: types.WorkExecResult{Type: types.WorkExecResultType(200)}}
+					if _, perr := pe.Encode(poison); perr != nil {
+						h.Inc("encodings_after_a_failed_encode_on_the_same_encoder")
+					}
+				}
 				enc2, err2 := pe.Encode(v)
 				types.PutEncoder(pe)
 				if err2 != nil || !bytes.Equal(enc, enc2) {
